@@ -79,7 +79,7 @@ def parse_vc(path):
             vc["trusted"] += sub["trusted"]
             cur = None
             continue
-        if m and m.group(1) in ("req", "prelude", "fn", "method", "body_start", "body_end", "loop", "trusted", "probe", "end"):
+        if m and m.group(1) in ("req", "prelude", "fn", "method", "body_start", "body_end", "loop", "trusted", "probe", "end", "attr"):
             d, arg = m.group(1), m.group(2).strip()
             if d == "req":
                 cur = vc["req"]
@@ -91,9 +91,12 @@ def parse_vc(path):
                 vc["probes"].append(arg)
                 cur = None
             elif d in ("fn", "method"):
-                item = dict(kind=d, name=arg, spec=[], body_start=[], body_end=[], loops={})
+                item = dict(kind=d, name=arg, spec=[], body_start=[], body_end=[], loops={}, attrs=[])
                 vc["items"][arg] = item
                 vc["order"].append(arg)
+                cur = item["spec"]
+            elif d == "attr":
+                item["attrs"].append(arg)
                 cur = item["spec"]
             elif d == "body_start":
                 cur = item["body_start"]
@@ -132,6 +135,8 @@ def splice_fn(text, item, name, problems):
         if k not in loops_present:
             problems.append("%s: contract names loop %d but the extracted function has loops %s (anchor lost)" % (name, k, sorted(loops_present)))
     text = text.replace("__K2V_SPEC__", "\n" + "\n".join(item["spec"]) + "\n" if item["spec"] else "")
+    if item.get("attrs"):
+        text = text.replace("#[verifier ::loop_isolation(false)]", " ".join(item["attrs"]) + " #[verifier ::loop_isolation(false)]", 1)
     text = text.replace("__K2V_BODY_START_S__;", "\n".join(item["body_start"]))
     text = text.replace("__K2V_BODY_END_S__;", "\n".join(item.get("body_end", [])))
     for k in loops_present:
